@@ -4,6 +4,7 @@
 package setec
 
 import (
+	"bytes"
 	"context"
 	"encoding"
 	"encoding/json"
@@ -176,7 +177,9 @@ func (f fieldInfo) apply(ctx context.Context, s *Store, fullName string) error {
 	}
 	switch f.vtype {
 	case bytesType:
-		f.value.Elem().Set(reflect.ValueOf(v.Get()))
+		// Copy the value: the slice returned by the handle is owned by the
+		// store and must not be aliased by a field the caller may modify.
+		f.value.Elem().Set(reflect.ValueOf(bytes.Clone(v.Get())))
 	case stringType:
 		f.value.Elem().Set(reflect.ValueOf(string(v.Get())))
 	case secretType:
